@@ -62,8 +62,18 @@ CONTRACT(PRE_tround_tdur_cocl(t, dur, nextp), POST_tround_tdur_cocl(RV, t, dur, 
 #define POST_dround_ddur_d(ret, d, dur, nextp) \
 	((ret).typ == DT_YMD && MIDX((ret).ymd.y, (ret).ymd.m) == D_MIDX(d, dur, nextp) && (ret).ymd.m >= 1 && (ret).ymd.m <= 12 && \
 	 (int)(ret).ymd.d == (RABS(dur) > S_MDAYS(D_MIDX(d, dur, nextp) / 12, D_MIDX(d, dur, nextp) % 12 + 1) ? S_MDAYS(D_MIDX(d, dur, nextp) / 12, D_MIDX(d, dur, nextp) % 12 + 1) : RABS(dur)))
-#define PRE_dround_ddur(d, dur, nextp) (PRE_dround_ddur_mo(d, dur, nextp) || PRE_dround_ddur_d(d, dur, nextp))
-#define POST_dround_ddur(ret, d, dur, nextp) ((dur).durtyp == DT_DURD ? POST_dround_ddur_d(ret, d, dur, nextp) : POST_dround_ddur_mo(ret, d, dur, nextp))
+/* ---- rounding a day-number value to a WEEKDAY: result has that weekday, lies on the requested side, at most 6 days away
+ * (exactly 7 with --next when already on it; unchanged without --next when already on it) */
+#define PRE_dround_ddur_wd(d, dur, nextp) \
+	((d).typ == DT_DAISY && (d).daisy >= 8 && (d).daisy <= S_MAX_DAISY - 7 && (dur).durtyp == DT_DURYMCW && (dur).ymcw.w >= 1 && (dur).ymcw.w <= 7)
+#define WD_DELTA(ret, d) ((int)(ret).daisy - (int)(d).daisy)
+#define POST_dround_ddur_wd(ret, d, dur, nextp) \
+	((ret).typ == DT_DAISY && S_WDAY((int)(ret).daisy) == (int)(dur).ymcw.w && \
+	 ((dur).neg ? (WD_DELTA(ret, d) <= 0 && WD_DELTA(ret, d) >= -7 && ((nextp) ? WD_DELTA(ret, d) < 0 : WD_DELTA(ret, d) > -7)) \
+		    : (WD_DELTA(ret, d) >= 0 && WD_DELTA(ret, d) <= 7 && ((nextp) ? WD_DELTA(ret, d) > 0 : WD_DELTA(ret, d) < 7))))
+#define PRE_dround_ddur(d, dur, nextp) (PRE_dround_ddur_mo(d, dur, nextp) || PRE_dround_ddur_d(d, dur, nextp) || PRE_dround_ddur_wd(d, dur, nextp))
+#define POST_dround_ddur(ret, d, dur, nextp) ((dur).durtyp == DT_DURD ? POST_dround_ddur_d(ret, d, dur, nextp) : \
+	(dur).durtyp == DT_DURYMCW ? POST_dround_ddur_wd(ret, d, dur, nextp) : POST_dround_ddur_mo(ret, d, dur, nextp))
 static struct dt_d_s dround_ddur(struct dt_d_s d, struct dt_ddur_s dur, bool nextp)
 CONTRACT(PRE_dround_ddur(d, dur, nextp), POST_dround_ddur(RV, d, dur, nextp));
 #endif
